@@ -545,6 +545,112 @@ class Model:
                 pred.trace.append((tr[0], tr[1], e.id, fn, tuple(args), result))
                 pred.trig.add('traced')
 
+
+    # ---- cloning / hashing (used by the linearizability search) --------------------------------
+    def clone(self):
+        m = Model.__new__(Model)
+        m.meta, m.shapes, m.sites = self.meta, self.shapes, self.sites
+        m.objs = {}
+        for k, o in self.objs.items():
+            n = Obj()
+            n.id, n.kind, n.payload, n.moved = o.id, o.kind, o.payload, o.moved
+            n.mons = list(o.mons)
+            n.funcs = {fn: {'active': list(fl['active']), 'saturated': list(fl['saturated'])} for fn, fl in o.funcs.items()}
+            m.objs[k] = n
+        m.exps = {}
+        for k, e in self.exps.items():
+            n = Exp()
+            for a in Exp.__slots__:
+                setattr(n, a, getattr(e, a))
+            n.reg = dict(e.reg)
+            n.seqs = list(e.seqs)
+            m.exps[k] = n
+        m.seqs = {}
+        for k, q in self.seqs.items():
+            n = Seq()
+            n.id, n.entries = q.id, list(q.entries)
+            m.seqs[k] = n
+        m.tracers = list(self.tracers)
+        m.rep, m.okrep = self.rep, self.okrep
+        m.dead_seqs = set(self.dead_seqs)
+        return m
+
+    def key(self):
+        return (tuple(sorted((e.id, e.count, e.L, e.H, e.attached, e.saturated_list, e.reported, e.died, tuple(sorted(e.reg.items())))
+                             for e in self.exps.values())),
+                tuple(sorted((q.id, tuple(q.entries)) for q in self.seqs.values())),
+                tuple(sorted((o.id, tuple(o.mons), tuple(sorted((fn, tuple(fl['active']), tuple(fl['saturated'])) for fn, fl in o.funcs.items())))
+                             for o in self.objs.values())))
+
+    # ---- compound creation of a sequenced expectation (C12): register / set bounds / become callable ----
+    def op_exp_reg(self, pred, e, shape, slot, o, params, idx, lim_known):
+        s = self.shapes[shape]
+        if e not in self.exps:
+            sl = s['slots'][slot]
+            p = dict(params)
+            if lim_known:
+                if s['rt']:
+                    L = p.get('lo', 1)
+                    H = p.get('hi', 1) if s['lim'] == 'rt' else L
+                else:
+                    L, H = s['L'], s['H']
+            else:
+                L, H = 1, 1
+            x = Exp()
+            x.id, x.obj, x.fn, x.shape, x.slot, x.p = e, o, s['fn'], s, slot, p
+            x.L, x.H, x.count, x.attached, x.saturated_list, x.reported = L, H, 0, False, False, False
+            x.is_mon, x.died, x.site, x.moved, x.seqnamed = False, False, None, False, False
+            x.text, x.file, x.line = sl['text'], sl['file'], sl['line']
+            x.seqs = [p['s%d' % i] for i in range(s['nq'])]
+            x.reg = {}
+            self.exps[e] = x
+        x = self.exps[e]
+        sid = x.seqs[idx]
+        x.reg[sid] = True
+        self.seqs[sid].entries.append(e)
+        pred.ctx.add('seq')
+
+    def op_exp_lim(self, pred, e):
+        x = self.exps[e]
+        s, p = x.shape, x.p
+        L = p.get('lo', 1)
+        H = p.get('hi', 1) if s['lim'] == 'rt' else L
+        if not s['rt']:
+            L, H = s['L'], s['H']
+        if H != -1 and L > H:
+            for sid in x.seqs:
+                self.unregister(x, sid)
+            del self.exps[e]
+            pred.create = 'logic'
+            return
+        x.L, x.H = L, H
+
+    def op_exp_hook(self, pred, e):
+        x = self.exps[e]
+        x.attached = True
+        self.flist(self.objs[x.obj], x.fn)['active'].insert(0, e)
+        pred.create = 'ok'
+
+    def op_mon_attach(self, pred, e, site, o, *seqs):
+        st = self.sites[site]
+        x = Exp()
+        x.id, x.obj, x.fn, x.shape, x.slot, x.p = e, o, None, None, 0, {}
+        x.L, x.H, x.count, x.attached, x.saturated_list, x.reported = 1, 1, 0, False, False, False
+        x.is_mon, x.died, x.site, x.moved, x.seqnamed = True, False, st, False, False
+        x.text, x.file, x.line = st['text'], st['file'], st['line']
+        x.seqs = list(seqs)
+        x.reg = {}
+        self.exps[e] = x
+        self.objs[o].mons.append(e)
+
+    def op_mon_reg(self, pred, e, idx, last):
+        x = self.exps[e]
+        sid = x.seqs[idx]
+        x.reg[sid] = True
+        self.seqs[sid].entries.append(e)
+        if last:
+            pred.create = 'ok'
+
     def live_ids(self):
         return set(self.exps)
 
